@@ -36,10 +36,14 @@ ck.log("theorems re-checked")
 exe, out = ck.go_build("./cmd/hc07")
 if exe is None:
     bail("harness-build", "harness does not build against the repository (hook H2 unused/verif_export.go missing or API changed)", out)
+sc, out = ck.build_repo_cmd("./cmd/staticcheck", "staticcheck-c07")
+if sc is None:
+    bail("staticcheck-build", "cmd/staticcheck does not build", out)
+ck.log("harness and staticcheck built")
 work = ck.mkscratch()
 prefix = os.path.join(work, "out")
 shards = 12
-args = [exe, "-work", work, "-out", prefix, "-seed", str(ck.seed), "-shards", str(shards),
+args = [exe, "-work", work, "-out", prefix, "-seed", str(ck.seed), "-shards", str(shards), "-staticcheck", sc,
         "-testdata", os.path.join(REPO, "unused/testdata/src/example.com")]
 if ck.thorough():
     args += ["-gen", "2000", "-maxnodes", "9000",
@@ -66,6 +70,15 @@ for k in range(shards):
 Definition M := Eval vm_compute in numbered caseD_mismatch cases.
 Definition V := Eval vm_compute in numbered caseD_violation cases.
 Print M.
+Print V.
+"""
+have_l = os.path.exists(prefix + "_L.v")
+if have_l:
+    files["samename"] = """From Coq Require Import List NArith String. Import ListNotations.
+Require Import Verif.Model.C17_Graph Verif.Model.C17_Merge Verif.Model.C17_Check Verif.Model.C07.
+Open Scope N_scope. Open Scope string_scope.
+""" + open(prefix + "_L.v").read() + """
+Definition V := Eval vm_compute in numbered caseL_violation casesL.
 Print V.
 """
 res = coq_cases_noglob(ck, files, timeout=3000, jobs=12)
@@ -117,6 +130,23 @@ for k in range(shards):
                 note["reference"] = p["Refs"][int(m.group(2))]
             mismatch_notes.append(note)
 
+# second half through the real linter path: packages sharing their name, file base names and lines
+sn = data.get("SameName") or {}
+if have_l:
+    rc, out = res["samename"]
+    V = ck.printed_value(out, "V")
+    if rc != 0 or V is None:
+        broken.append(("cases-eval samename", out[-2000:]))
+    elif V != "[]":
+        for m in re.finditer(r'\("([^"]*)",\s*(\d+)(?:%N)?,\s*(\d+)(?:%N)?,\s*"([^"]*)"\)', V):
+            f, line, col, msg = m.group(1), m.group(2), m.group(3), m.group(4)
+            key = "cli-not-reported:%s:%s:%s" % (f, line, msg)
+            ck.violation(key, "staticcheck ./... over a module whose packages share names, file base names and lines does not print '%s' at %s:%s:%s although no identifier of that package refers to the object (it is reported when the package is linted alone)"
+                         % (msg, f, line, col), {"missing": [f, line, col, msg], "module": sn.get("Module"), "cli": sn.get("CLI"),
+                                                 "expected": sn.get("Expected"), "rerun": "VERIF_SEED=%d ./check C07" % ck.seed})
+for e in (sn.get("Errors") or []):
+    broken.append(("samename-run", e))
+
 # (ii) really deleting the reported objects
 for p in data["Packages"]:
     for e in (p.get("DelWriteOnly") or []):
@@ -147,13 +177,14 @@ if not real:
 ck.assume += [
     "graph construction (rules 1.1-12.1) is not modelled; the theorem deletion_safe_model is relative to edges_cover_refs, rooted and inner_refs_local, which are evaluated on every exported graph against types.Info.Uses/Selections (boolean checks proved sound)",
     "Go's type checker (go/types) is the oracle for 'still type-checks'; deletion is done on the AST (functions, methods, package-level and local var/const/type specifications, struct fields)",
+    "second half through lintcmd: the staticcheck binary built from the tree over a generated module with several packages of the same name; expected lines = the go/types candidates of each package",
     "second half: candidates are computed from go/types alone (unexported package-level func/type/var/stand-alone const, no Info.Uses entry, not _, init, main, not in a generated/cgo/file-ignored file, no lint:ignore on or above the declaration, no linkname/cgo_export)",
 ]
 ck.finish({
-    "evaluations": stats.get("packages", 0) + stats.get("refs", 0) + stats.get("candidates", 0),
+    "evaluations": stats.get("packages", 0) + stats.get("refs", 0) + stats.get("candidates", 0) + (sn.get("Stats") or {}).get("expected", 0),
     "distinct_nontrivial": stats.get("packages_with_deletions", 0),
     "rule": "evaluations = packages deleted-and-type-checked + identifier references checked against the exported graph + zero-reference candidates checked against Unused; non-trivial = packages in which at least one reported object was really deleted before type-checking",
     "samples": [{"package": p["Pkg"], "nodes": p["Nodes"], "deleted": p.get("Deleted"), "reported": (p.get("Reported") or [])[:5]} for p in data["Packages"][:3]],
-    "stats": stats, "skipped": (data.get("Skipped") or [])[:40],
+    "samename_stats": sn.get("Stats"), "stats": stats, "skipped": (data.get("Skipped") or [])[:40],
     "known_class_occurrences": len(write_only),
 })
